@@ -62,6 +62,24 @@ struct jt : joint_type<jt>
         verif_piece(1, b.data(), b.size());
     }
 };
+// second member order: the byte array first, so the element array needs alignment padding inside the joint memory
+struct jt2 : joint_type<jt2>
+{
+    joint_array<char> b;
+    joint_array<elem> a;
+    jt2(joint tag, ulong n, ulong m) : joint_type<jt2>(tag), b(m, *this), a(n, *this)
+    {
+        verif_piece(0, a.data(), n * sizeof(elem));
+        verif_piece(1, b.data(), m);
+    }
+};
+W void w_joint2_create(void* leaf, ulong additional, ulong n, ulong m)
+{
+    ::new (leaf) rec(1);
+    UTRY auto p = allocate_joint<jt2>(*static_cast<rec*>(leaf), joint_size(additional), n, m); (void)p; UCATCH
+}
+W ulong w_sizeof_jt2() { return sizeof(jt2); }
+W ulong w_alignof_jt2() { return alignof(jt2); }
 W ulong w_sizeof_jt() { return sizeof(jt); }
 W ulong w_alignof_jt() { return alignof(jt); }
 W void w_joint_create(void* leaf, ulong additional, ulong n, ulong m)
